@@ -11,18 +11,22 @@ CLAIMS = {
     "C19": dict(
         category="model_checking",
         text="spec/Pool.tla models BumpPool the way the code runs (per-thread program counter over the hook points, pool mutex, idle "
-             "stack, arena creation inside get's critical section -- the MutexGuard is a match-scrutinee temporary -- and, as a second "
-             "variant, outside it; use through the guard; guard drop or mem::forget; PoolReset/PoolResetToStart/PoolDrop). TLC explores every "
+             "stack, arena creation inside get's critical section -- the MutexGuard is a match-scrutinee temporary, so looking for an idle "
+             "arena and creating one is a single atomic step; use through the guard; guard drop or mem::forget; PoolReset/PoolResetToStart/PoolDrop). TLC explores every "
              "interleaving of 2-4 threads x 1-3 rounds x 0-2 pool-wide resets and checks: no arena under two owners, idle and held "
              "disjoint, no arena lost or duplicated, arenas created (or being created) <= peak number of simultaneous owners (owner = "
              "from the pop / decision to create in get's critical section to the push in drop's critical section; TLC refutes the "
-             "narrower reading), blocks stay in their arena across hand-overs until a pool-wide operation, reset/drop cover every "
+             "narrower reading), at the instant an arena is created no arena is idle (TLC refutes this, and created <= peak, for the variant "
+             "that releases the mutex before creating the arena), blocks stay in their arena across hand-overs until a pool-wide operation, reset/drop cover every "
              "arena, and under weak fairness every get and every drop returns. The same specification generates schedules "
              "(exhaustive under a partial-order reduction for small instances, seeded random walks for larger ones) which a controller "
-             "forces on real OS threads at sub-call granularity through cfg(bump_scope_verif) hooks; free-running stress runs are "
+             "forces on real OS threads at sub-call granularity through cfg(bump_scope_verif) hooks and a park point inside the base "
+             "allocator's first allocate of a new arena; PROBE schedules generated from the create-outside-the-lock variant send a thread for "
+             "the pool mutex while an arena is being created (conforming: it blocks on the mutex, seen in /proc, and the creator goes first); free-running stress runs are "
              "recorded too. Every recorded execution is validated by TLC: PoolTrace.tla (it is a behaviour of Pool.tla, bound by the "
              "sequence number taken under the pool mutex, arena identity, idle length, statistics; all invariants in every state) "
-             "and PoolContract.tla (the C19 clauses as predicates over observed values: identities of live guards, created vs peak, "
+             "and PoolContract.tla (the C19 clauses as predicates over observed values: identities of live guards, created vs peak, idle arenas at the instant of creation (completed pushes minus pops, read "
+             "inside the allocator call), "
              "patterns of all blocks re-read after hand-over, per-arena statistics and base-allocator ledger around "
              "reset/reset_to_start/drop compared with a single-arena twin).",
         design_ref="DESIGN.md section 3.7 and section 4, C19",
